@@ -1142,7 +1142,7 @@ class Exec(Verifier):
                 pseen.add(k)
                 probes.append(pr)
         return {"obligations": obls, "probes": probes, "paths": paths, "path_ends": ends, "trivial": self.trivial,
-                "ghost_assumes": sorted(set(self.ghost_assumes))}
+                "ghost_assumes": sorted(set(self.ghost_assumes)), "applied_contracts": sorted(getattr(self, "applied_contracts", ()))}
 
     def run_path(self, con, fdef):
         decos = [ast.unparse(d) for d in fdef.decorator_list]
